@@ -426,8 +426,9 @@ type c20Obs struct {
 }
 
 type c20Req struct {
-	kind  string // "msg" | "blk" | "close"
+	kind  string // "msg" | "burst" | "blk" | "close"
 	msg   lnwire.Message
+	msgs  []lnwire.Message
 	peer  int
 	reply chan c20Resp
 }
@@ -712,25 +713,38 @@ func (in *c20Inner) step(req c20Req) *c20Obs {
 		time.Sleep(c20StepSleep)
 		synctest.Wait()
 	default:
-		pk := c20PeerKey(req.peer)
-		if in.cfg.SamePeer {
-			pk = c20PeerKey(0)
+		msgs := req.msgs
+		if req.kind == "msg" {
+			msgs = []lnwire.Message{req.msg}
 		}
-		peer := &mockPeer{pk: pk.PubKey()}
-		fut := in.goss.ProcessRemoteAnnouncement(context.Background(), req.msg, peer)
+		var futs []actor.Future[error]
+		for i, m := range msgs {
+			pk := c20PeerKey(req.peer + i)
+			if in.cfg.SamePeer {
+				pk = c20PeerKey(0)
+			}
+			peer := &mockPeer{pk: pk.PubKey()}
+			// returns as soon as the gossiper's network handler has taken the
+			// message: the next one is handed over while this one is processed
+			futs = append(futs, in.goss.ProcessRemoteAnnouncement(context.Background(), m, peer))
+		}
 		time.Sleep(c20StepSleep)
 		synctest.Wait()
 		done, cancel := context.WithCancel(context.Background())
 		cancel()
-		gerr, ctxErr := actor.AwaitFuture[error](done, fut)
-		switch {
-		case ctxErr != nil:
-			obs.Verdict = "pending"
-		case gerr != nil:
-			obs.Verdict = "err: " + gerr.Error()
-		default:
-			obs.Verdict = "ok"
+		var verdicts []string
+		for _, fut := range futs {
+			gerr, ctxErr := actor.AwaitFuture[error](done, fut)
+			switch {
+			case ctxErr != nil:
+				verdicts = append(verdicts, "pending")
+			case gerr != nil:
+				verdicts = append(verdicts, "err: "+gerr.Error())
+			default:
+				verdicts = append(verdicts, "ok")
+			}
 		}
+		obs.Verdict = strings.Join(verdicts, " & ")
 	}
 	obs.Broadcast = in.takeBroadcast()
 	obs.Graph, obs.Zombies, obs.CacheDiff = in.observe()
@@ -967,6 +981,12 @@ var errC20Harness = errors.New("c20 harness error")
 // Deliver hands one decoded message to the gossiper as peer number `peer`.
 func (w *c20World) Deliver(msg lnwire.Message, peer int) (*c20Obs, error) {
 	return w.call(c20Req{kind: "msg", msg: msg, peer: peer})
+}
+
+// DeliverBurst hands several messages over back to back, without waiting for the
+// first to be processed; message i comes from peer number peer+i.
+func (w *c20World) DeliverBurst(msgs []lnwire.Message, peer int) (*c20Obs, error) {
+	return w.call(c20Req{kind: "burst", msgs: msgs, peer: peer})
 }
 
 // Block connects the next block of the universe.
